@@ -1641,10 +1641,8 @@ impl<C: Cond> World<C> {
     }
 
     fn site_root(&self, g: Id, m: &GroupMember<Id>, x: &Option<(u8, Option<C>)>, y: &Option<(u8, Option<C>)>) -> (&'static str, String) {
-        let cats: Vec<&str> = self.pair_categories(g, m).into_iter().collect();
-        let after = if cats.is_empty() { "no concurrent operations target that member".to_string() } else { format!("after concurrent {}", cats.join(" + ")) };
         if x.is_none() || y.is_none() {
-            return ("reported-membership-differs", format!("root_members: member reported on one side only; {after}"));
+            return ("reported-membership-differs", "root_members: member reported on one side only".into());
         }
         if Self::has_inconsistent_pair(&self.assigned(Some(g), |t| t == m)) {
             return (
@@ -1652,7 +1650,12 @@ impl<C: Cond> World<C> {
                 "root_members: the accesses concurrently assigned to the member are not consistently ordered by Access::partial_cmp (a<b == b<a for some pair), so the take-the-lower tie-break in state::merge depends on argument order, i.e. on HashSet iteration order of the heads / on delivery order".into(),
             );
         }
-        ("reported-access-differs", format!("root_members: assigned accesses are consistently ordered by Access::partial_cmp; {after}"))
+        ("reported-access-differs", "root_members: the accesses assigned to the member are consistently ordered by Access::partial_cmp (not the comparator)".into())
+    }
+
+    fn concurrency_note(&self, g: Id, m: &GroupMember<Id>) -> String {
+        let cats: Vec<&str> = self.pair_categories(g, m).into_iter().collect();
+        if cats.is_empty() { "no concurrent operations target that member".to_string() } else { format!("after concurrent {}", cats.join(" + ")) }
     }
 
     fn site_transitive(&self, i: Id, x: &Option<(u8, Option<C>)>, y: &Option<(u8, Option<C>)>) -> (&'static str, String) {
@@ -1677,7 +1680,7 @@ impl<C: Cond> World<C> {
             let (rb, _) = &b.groups[g];
             if let Some((m, x, y)) = Self::first_diff(ra, rb) {
                 let (clause, site) = self.site_root(*g, &m, &x, &y);
-                return (clause, site, format!("root_members(g{g}): {} is {} vs {}", show_member(&m), Self::show_opt(&x), Self::show_opt(&y)));
+                return (clause, site, format!("root_members(g{g}): {} is {} vs {}; {}", show_member(&m), Self::show_opt(&x), Self::show_opt(&y), self.concurrency_note(*g, &m)));
             }
         }
         for (g, (_, ma)) in &a.groups {
@@ -1692,7 +1695,7 @@ impl<C: Cond> World<C> {
                             let r = root_view(&twin, *g2);
                             if let Some((m, x2, y2)) = Self::first_diff(r0, &r) {
                                 let (clause, site) = self.site_root(*g2, &m, &x2, &y2);
-                                return (clause, site, format!("{detail}; root_members(g{g2}) is itself unstable: {} is {} vs {}", show_member(&m), Self::show_opt(&x2), Self::show_opt(&y2)));
+                                return (clause, site, format!("{detail}; root_members(g{g2}) is itself unstable: {} is {} vs {}; {}", show_member(&m), Self::show_opt(&x2), Self::show_opt(&y2), self.concurrency_note(*g2, &m)));
                             }
                         }
                     }
